@@ -60,6 +60,16 @@ def load_protocol(col, rule="C03.R2", flag_rule=None):
                 "load registers a task for an already defined target only after unregistering it (or skips it): every path to "
                 "register(task) passes unregister(lhs) or a branch on which `lhs not in self.tasks` is known",
                 "a path reaches register(task) with neither" if leak else "")
+        # "is the target defined" is asked in the iteration that registers it: an answer computed in an earlier pass over the dump is
+        # stale as soon as that pass's own entries define the same target twice
+        evals = [nid_ for nid_, nd_ in cfg.nodes.items() if nd_.ast is not None and nd_.kind in ("stmt", "test") and any(
+            isinstance(x, ast.Compare) and len(x.ops) == 1 and isinstance(x.ops[0], (ast.In, ast.NotIn)) and
+            sx.sym.of(x.comparators[0], nid_) == S.sattr("tasks") for part in cfg.own_exprs(nid_) if part is not None for x in ast.walk(part))]
+        if evals and hdrs:
+            same_pass = [n_ for n_ in evals if hdrs[0] in [g.of for g in cfg.guards(n_) if g.kind == "T" and isinstance(g.ast, (ast.For, ast.AsyncFor))]]
+            col.add(rule, f"{q}#definedness-asked-when-registering", bool(same_pass), sx.loc(evals[0]),
+                    "whether the target already has a definition is tested in the same iteration that registers the new one",
+                    "" if same_pass else "the membership test sits in another loop than register(task)")
         # the overwrite flag
         okc, factc = True, ""
         if ow is None:
